@@ -179,5 +179,11 @@ for stochastic in (False, True):
     export_contract('general:python-power', [(['A', 'A'], ['P'], 'general', {'rate': 'kf*A**2 - Kd*A'})], ['kf', 'Kd'], stochastic)
     export_contract('general:unary-minus-on-a-power', [(['A'], ['P'], 'general', {'rate': 'kf*exp(-A^2/Kd) + B'})], ['kf', 'Kd'], stochastic)
     export_contract('general:power-of-a-power', [(['A'], ['P'], 'general', {'rate': 'kf*A^B^0.5 + Kd'})], ['kf', 'Kd'], stochastic)
+    # names that contain one another: a global parameter literally called k next to numeric rate constants (whose dummy parameter ids
+    # contain "_k_") and next to a parameter called deg_k - every identifier in a law must still be the one defined in the document
+    export_contract('name-overlap:k-and-numeric-constants', [(['A'], ['P'], 'massaction', {'k': 'k'}), (['B'], ['P'], 'massaction', {'k': '$kn'}),
+                                                             (['A', 'B'], ['C'], 'massaction', {'k': '$km'})], ['k'], stochastic)
+    export_contract('name-overlap:k-and-deg_k', [(['A'], ['P'], 'massaction', {'k': 'k'}), (['P'], [], 'massaction', {'k': 'deg_k'}),
+                                                 (['A'], ['B'], 'general', {'rate': 'deg_k*A/(k + A)'})], ['k', 'deg_k'], stochastic)
     export_contract('two-reactions', [(['A', 'B'], ['C'], 'massaction', {'k': 'kf'}), (['C'], ['A', 'B'], 'massaction', {'k': '$kr'})],
                     ['kf'], stochastic)
